@@ -90,7 +90,15 @@ STD_OPTIONS = {
                             opt("logit", init=dict(reparameterisations="logit")),
                             opt("zscore", init=dict(reparameterisations="zscore")),
                             opt("dict-x0-default", init=dict(reparameterisations={"x0": "default"})),
-                            opt("dict-x0-inversion-duplicate", init=dict(reparameterisations={"x0": {"reparameterisation": "inversion-duplicate"}}))],
+                            opt("dict-x0-inversion-duplicate", init=dict(reparameterisations={"x0": {"reparameterisation": "inversion-duplicate"}})),
+                            # options of RescaleToBounds given per parameter; `post_rescaling="logit"` with the default
+                            # update_bounds=True is a combination nessai refuses when the proposal is built — it has to stay
+                            # refused up front (seeded change C20-gB moved the guard below the assignment it reads)
+                            opt("dict-x0-rtb-post-logit", init=dict(reparameterisations={"x0": {"reparameterisation": "rescaletobounds", "post_rescaling": "logit"}})),
+                            opt("dict-x0-rtb-post-logit-fixed-bounds", init=dict(reparameterisations={"x0": {"reparameterisation": "rescaletobounds", "post_rescaling": "logit", "update_bounds": False}})),
+                            opt("dict-x0-rtb-offset", init=dict(reparameterisations={"x0": {"reparameterisation": "rescaletobounds", "offset": True}})),
+                            opt("dict-x0-rtb-inversion", init=dict(reparameterisations={"x0": {"reparameterisation": "rescaletobounds", "boundary_inversion": True}})),
+                            opt("dict-x0-rtb-unit-bounds", init=dict(reparameterisations={"x0": {"reparameterisation": "rescaletobounds", "rescale_bounds": [0.0, 1.0]}}))],
     "fallback_reparameterisation": [opt("None", init=dict(fallback_reparameterisation=None)),
                                     opt("default", init=dict(fallback_reparameterisation="default"))],
     "use_default_reparameterisations": [opt("True", init=dict(use_default_reparameterisations=True))],
@@ -119,6 +127,9 @@ STD_OPTIONS = {
                                   opt("rejection_sampling", run=dict(posterior_sampling_method="rejection_sampling"))],
     "result_extension": [opt("json", init=dict(result_extension="json"), run=dict(save=True)),
                          opt("hdf5", init=dict(result_extension="hdf5"), run=dict(save=True))],
+    # not an option but the state an EARLIER run of the same process leaves in nessai's module-level configuration: the
+    # importance sampler registers its extra live-point fields globally and nothing un-registers them (seeded change C20-gA)
+    "process_history": [opt("after-importance-sampler", env=dict(extra_fields=True))],
 }
 # documented option values that FAIL on the pinned tree (each is a finding; replayed in every run, kept out of the
 # pairwise array because they fail on their own)
@@ -170,7 +181,9 @@ STD_QUICK = ["flow_proposal_class:AugmentedFlowProposal", "linear_transform:svd"
              "latent_prior:gaussian+cvm=False", "latent_prior:flow+cvm=False", "truncate_log_q:True", "accumulate_weights:True",
              "reparameterisations:inversion", "reparameterisations:logit", "reset_flow:True", "training_frequency:20",
              "maximum_uninformed:0", "analytic_priors:True", "prior_sampling:True", "max_radius:False+cvm=False",
-             "posterior_sampling_method:multinomial_resampling", "noise:adaptive", "batch_size:10", "memory:20"]
+             "posterior_sampling_method:multinomial_resampling", "noise:adaptive", "batch_size:10", "memory:20",
+             "process_history:after-importance-sampler", "reparameterisations:dict-x0-rtb-post-logit",
+             "reparameterisations:dict-x0-rtb-post-logit-fixed-bounds", "reparameterisations:dict-x0-rtb-offset"]
 
 INS_BASE = dict(init=dict(importance_nested_sampler=True, nlive=60, min_samples=20, max_iteration=4, plot=False, checkpointing=False,
                           reparameterisation=None),
@@ -465,6 +478,8 @@ def run_one(sampler, cfg, seed, wall, fake_flows=True, budget=None):
         if ff is not None:
             ff.__enter__()
         signal.setitimer(signal.ITIMER_REAL, wall)
+        if cfg.get("env", {}).get("extra_fields"):
+            ImportanceNestedSampler.add_fields()
         try:
             fs = FlowSampler(model, output=tmp, resume=False, signal_handling=False, **init)
             state["phase"] = "init"
